@@ -139,6 +139,9 @@ func classifyRoot(v ssa.Value, fn *ssa.Function, visiting map[ssa.Value]bool) ro
 		}
 		return res
 	case *ssa.Call:
+		if c := x.Call.StaticCallee(); c != nil && c.String() == "math/big.NewInt" {
+			return rootInfo{kind: rootFresh, sites: []ssa.Value{v}} // a new big.Int
+		}
 		if c := x.Call.StaticCallee(); c != nil && strings.HasPrefix(c.String(), "(*math/big.Int).") && len(x.Call.Args) > 0 {
 			// math/big methods that return *big.Int return their receiver
 			if _, isPtr := under(x.Type()).(*types.Pointer); isPtr {
@@ -434,6 +437,9 @@ func loopRoots(v ssa.Value, blocks map[*ssa.BasicBlock]bool, visiting map[ssa.Va
 		}
 		return outs, false
 	case *ssa.Call:
+		if c := x.Call.StaticCallee(); c != nil && c.String() == "math/big.NewInt" {
+			return nil, false // allocated inside the loop body
+		}
 		if c := x.Call.StaticCallee(); c != nil && strings.HasPrefix(c.String(), "(*math/big.Int).") && len(x.Call.Args) > 0 {
 			if _, isPtr := under(x.Type()).(*types.Pointer); isPtr {
 				return loopRoots(x.Call.Args[0], blocks, visiting)
